@@ -988,6 +988,11 @@ class Interpreter(BaseInterpreter[TContext, TEvent]):
             if explicit_id
             else f"{self.id}:{actor_machine_key}:{uuid.uuid4()}"
         )
+        # ♻️ Spawning under an id that is still in use supersedes that actor.
+        #    Overwriting the registry entry alone orphaned it: it kept running
+        #    but could no longer be addressed, stopped by `stopChild`, or
+        #    reached by the parent's own `stop()`.
+        await self._retire_actor(actor_id)
         child_interpreter = Interpreter(actor_machine)
         child_interpreter.parent = self
         child_interpreter.id = actor_id
@@ -1008,6 +1013,24 @@ class Interpreter(BaseInterpreter[TContext, TEvent]):
             actor_id,
             self.id,
         )
+
+    async def _retire_actor(self, actor_id: str) -> None:
+        """Stops and unregisters the actor currently registered under an id.
+
+        Args:
+            actor_id (str): The full actor id about to be reused.
+        """
+        previous = self._actors.pop(actor_id, None)
+        if previous is None:
+            return
+        self._actor_sources.pop(actor_id, None)
+        registry = self._system_registry()
+        for system_id, candidate in list(registry.items()):
+            if candidate is previous:
+                del registry[system_id]
+        result = previous.stop()
+        if inspect.isawaitable(result):
+            await result
 
     async def _cancel_state_tasks(self, state: StateNode) -> None:
         """Cancels all background tasks associated with an exited state.
